@@ -1,4 +1,6 @@
 pub mod c01;
 pub mod c04;
 pub mod c15;
+pub mod c17;
+pub mod c18;
 pub mod c20;
